@@ -8,7 +8,8 @@ const V = require('../lib/vue');
 const E = require('../lib/espace');
 
 const OPT_VECTORS = [...boolVectors(['mergeProps', 'transformOn', 'optimize'])];
-const { SYM_ATTR: SYM } = require('../lib/tsyms');
+const { SYM_ATTR: SYM, SYM_X } = require('../lib/tsyms');
+const symOf = (c) => (c.x ? SYM_X : SYM);
 
 function expectedProps(contribs, opts) {
   if (!contribs.length) return null;
@@ -92,12 +93,17 @@ function spaces(tier) {
     bounds: { alphabet: SYM.map((s) => s[0]), max_length: sLen, placement: 'title="…" on <div>' },
     *gen() { for (const s of sequences(SYM.length, sLen)) yield { sp: 'S', s }; },
   });
+  sp.push({
+    name: 'X:exotic-attribute-strings',
+    bounds: { alphabet: SYM_X.map((s) => s[0]), max_length: thorough ? 4 : 3, placement: 'title="…" on <div>' },
+    *gen() { for (const s of sequences(SYM_X.length, thorough ? 4 : 3)) yield { sp: 'S', s, x: true }; },
+  });
   return sp;
 }
 
 function requests(c) {
   if (c.sp === 'S') {
-    const t = c.s.map((i) => SYM[i][1]).join('');
+    const t = c.s.map((i) => symOf(c)[i][1]).join('');
     return [{ src: E.PRELUDE + `__out.mk = () => <div title="${t}" />;\n`, want: ['eval'], opts: '{}' }];
   }
   if (c.sp === 'P') return [{ src: E.PRELUDE + c.uses.map((u, i) => USES[u].tpl(i)).join('\n') + '\n', want: ['eval'], opts: '{}' }];
@@ -150,7 +156,7 @@ function judge(c, resps) {
     const o = canonValue(v, ctx, []);
     obs = stable([o && o.type, o && o.props]);
     if (c.sp === 'S') {
-      const e = cleanJsxText(c.s.map((i) => SYM[i][2]).join(''));
+      const e = cleanJsxText(c.s.map((i) => symOf(c)[i][2]).join(''));
       const got = o && o.props && o.props.title;
       if (got !== e) viol.push({ clause: 'attr-string', diff: 'props.title:different', msg: 'attribute string not normalised by the JSX rule', expected: e, observed: got });
       return;
@@ -172,8 +178,8 @@ function judge(c, resps) {
 function* shrink(c) {
   if (c.sp === 'P') { for (let i = 0; i < c.uses.length; i++) if (c.uses.length > 1) yield { sp: 'P', uses: c.uses.slice(0, i).concat(c.uses.slice(i + 1)) }; return; }
   if (c.sp === 'S') {
-    for (let i = 0; i < c.s.length; i++) yield { sp: 'S', s: c.s.slice(0, i).concat(c.s.slice(i + 1)) };
-    for (let i = 0; i < c.s.length; i++) if (['b', '&amp;'].includes(SYM[c.s[i]][0])) { const s = c.s.slice(); s[i] = 0; yield { sp: 'S', s }; }
+    for (let i = 0; i < c.s.length; i++) yield { sp: 'S', s: c.s.slice(0, i).concat(c.s.slice(i + 1)), x: c.x };
+    for (let i = 0; i < c.s.length; i++) if (!c.x && ['b', '&amp;'].includes(SYM[c.s[i]][0])) { const s = c.s.slice(); s[i] = 0; yield { sp: 'S', s }; }
     return;
   }
   if (c.cm !== undefined) yield Object.assign({}, c, { cm: undefined });
@@ -190,7 +196,7 @@ function* shrink(c) {
 
 function caseKey(c) {
   if (c.sp === 'P') return 'P:' + c.uses.join(',');
-  if (c.sp === 'S') return 'S:' + c.s.map((i) => SYM[i][0]).join('.');
+  if (c.sp === 'S') return (c.x ? 'X:' : 'S:') + c.s.map((i) => symOf(c)[i][0]).join('.');
   const o = Object.keys(c.o).filter((k) => c.o[k]).map((k) => (k === 'pragma' ? 'pragma=' + c.o[k] : k)).join('+') || '-';
   return `A:${c.host}[${c.attrs.map((k, i) => (c.w && c.w[0] === i ? c.w[1] + '(' + k + ')' : k)).join(',')}]{${o}}${c.cm !== undefined ? ' after ' + JSON.stringify(COMMENTS[c.cm]) : ''}`;
 }
